@@ -123,6 +123,14 @@ CLAIMED.update({
          "callback and the end of the run to find everything intact.",
          CONN_NOTE, "TLA+ specs (PgReader allocation machine, PgConn) + TLC model checking + replay on the real Reader/server "
          "with retained data + TLC trace validation", "4 C18"),
+ "C11": ("TLC explores the TLS negotiation (no TLS / empty list / certificate; plain start, SSLRequest alone or with stuffed "
+         "plaintext in the same or a later segment, handshake, then session / second SSLRequest / Cancel inside TLS or "
+         "after 'N') and checks that 'S' requires certificates, nothing is dispatched while the handshake is pending and "
+         "stuffing never starts a session; the cover and random whole sessions run on the real server with a real "
+         "crypto/tls client over a tapped in-memory wire; TLC validates that every raw write after 'S' is TLS records and "
+         "that the conversation inside the session is a behaviour of the same PgConn machine.",
+         CONN_NOTE + " Trusted additionally: Go's crypto/tls, the attribution of decrypted plaintext to the server write that carried it.",
+         CONN_TECH, "4 C11"),
 })
 NOT_YET = "machinery for this property is not built yet in this revision (planned, see DESIGN.md section 4)"
 
